@@ -524,6 +524,38 @@ var differs = []differ{
 		m.Setup[ds[0]] = a[:len(a)-1]
 		return true
 	}},
+	{"matrix-named-dimension-gains-a-value", func(t *rapid.T, w *world) bool {
+		m := w.Step.Matrix
+		if m == nil {
+			return false
+		}
+		var ds []string
+		for d := range m.Setup {
+			if d != "" {
+				ds = append(ds, d)
+			}
+		}
+		if len(ds) == 0 {
+			return false
+		}
+		sort.Strings(ds)
+		d := rapid.SampledFrom(ds).Draw(t, "gainsdim")
+		m.Setup[d] = append(append([]string{}, m.Setup[d]...), "one more")
+		return true
+	}},
+	{"matrix-dimension-removed", func(t *rapid.T, w *world) bool {
+		m := w.Step.Matrix
+		if m == nil || len(m.Setup) < 2 {
+			return false
+		}
+		var ds []string
+		for d := range m.Setup {
+			ds = append(ds, d)
+		}
+		sort.Strings(ds)
+		delete(m.Setup, rapid.SampledFrom(ds).Draw(t, "removeddim"))
+		return true
+	}},
 	{"plugin-name-gains-the-suffix-canonicalisation-appends", func(t *rapid.T, w *world) bool {
 		// "foo#v1" and "foo-buildkite-plugin#v1" are different plugins by the documented rule
 		for _, p := range w.Step.Plugins {
@@ -751,6 +783,19 @@ func TestPropPayload(t *testing.T) {
 		} else {
 			b = a.clone()
 			order := rapid.Permutation(seq(len(differs))).Draw(t, "dorder")
+			if a.Step.Matrix != nil && rapid.IntRange(0, 2).Draw(t, "matrixfirst") == 0 {
+				// one step in three that has a matrix gets a difference inside the matrix (the catalogue is
+				// long, and most of its entries apply to every step)
+				var first, rest []int
+				for _, i := range order {
+					if strings.Contains(differs[i].name, "matrix") || strings.Contains(differs[i].name, "dimension") {
+						first = append(first, i)
+					} else {
+						rest = append(rest, i)
+					}
+				}
+				order = append(first, rest...)
+			}
 			applied := ""
 			for _, i := range order {
 				if differs[i].f(t, &b) {
